@@ -781,11 +781,20 @@ def check_new_typestate(prog, rep):
                 for tt in (t.elts if isinstance(t, ast.Tuple) else [t]):
                     if isinstance(tt, ast.Attribute) and dotted(tt.value) == objname:
                         assigned.add(tt.attr)
+                        setter = _property_setter(ci, tt.attr)
+                        if setter is not None:   # `obj.order = ..` runs the setter
+                            assigned |= _attr_writes(ct, ci, setter)
             # method calls on obj (skip sanity check: it runs last and reads everything)
             for c in ast.walk(st) if not isinstance(st, (ast.If, ast.For)) else []:
                 if isinstance(c, ast.Call) and isinstance(c.func, ast.Attribute) and \
+                        dotted(c.func.value) == objname and c.func.attr in (
+                            '__setstate__', '__init__'):
+                    o, callee = ct.resolve_method(ci, c.func.attr)
+                    if callee is not None:
+                        assigned |= _attr_writes(ct, ci, callee)
+                if isinstance(c, ast.Call) and isinstance(c.func, ast.Attribute) and \
                         dotted(c.func.value) == objname and c.func.attr not in (
-                            'test_sanity', '__setstate__', '__init__'):
+                            '__setstate__', '__init__'):
                     for sub in ct.cone(ci):
                         if not _loader_reaches(ct, sub, f):
                             continue
@@ -812,6 +821,15 @@ def check_new_typestate(prog, rep):
                     o, callee = ct.resolve_method(ci, c.func.attr)
                     if callee is not None:
                         assigned |= _attr_writes(ct, ci, callee)
+
+
+def _property_setter(ci, name):
+    for k in ci.mro:
+        for st in k.node.body:
+            if isinstance(st, ast.FunctionDef) and st.name == name and any(
+                    unparse(d) == name + '.setter' for d in st.decorator_list):
+                return st
+    return None
 
 
 def _loader_reaches(ct, sub, f):
@@ -878,6 +896,11 @@ def _attr_reads_before_write(ct, cls, func, depth=0):
                 continue
             if isinstance(p, ast.Call) and dotted(p.func) in ('hasattr', 'getattr'):
                 continue
+            q = p
+            while q is not None and not isinstance(q, ast.stmt):
+                q = parent(q)
+            if isinstance(q, ast.Raise):
+                continue    # building the message of an error that is not raised on a good load
             if name not in written:
                 reads.add(name)
         elif depth < 3:
